@@ -104,8 +104,11 @@ void harness(void)
         }
         bits += popcount8(in.xor_mask[i]);
         for (unsigned k = 0; k < 8; ++k) {
-            /* bit position counted from the frame's first transmitted bit (MSB first) */
-            if (in.xor_mask[i] & (0x80u >> k)) {
+            /* bit position in transmission order on a serial line: octets in
+             * order, least significant bit of each octet first (UART order,
+             * which is also the bit order CRC-16/ARC, a reflected CRC, is
+             * defined over; a burst is contiguous in THIS order) */
+            if (in.xor_mask[i] & (1u << k)) {
                 if (first < 0)
                     first = (int)(8 * i + k);
                 last = (int)(8 * i + k);
